@@ -1268,6 +1268,123 @@ def stream_zeeman_structure(run, n):
 
 
 
+# -- fault histories: a raising user-supplied component function must not change what later successful calls return -----------
+class _ComponentFault(ValueError):
+    pass
+
+
+def stream_fault_histories(run, n):
+    """S, model-free.  One ZeemanStructure (and one ZeemanMultiplet on it) through a history of field strengths in which some calls
+    make the k-th (k >= 2) user-supplied wavelength/ratio function of one polarisation raise.  Every successful call must (a) equal,
+    bit for bit, the first successful call at the same field on the same object, (b) equal a fresh object built from the same
+    functions, (c) integrate to the radiance (window spans the line), and the user's exception must reach the caller."""
+    import numpy as np
+    from cherab.core import Line, Species
+    from cherab.core.atomic import ZeemanStructure
+    from cherab.core.model import lineshape as L
+    rng, W = run.rng, run.W
+    for it in range(n):
+        e = gen_env(rng, bclass='oblique', tclass=rng.choice(['cold', 'warm', 'warm', 'hot']))
+        u = unit(rng)
+        limit = rng.uniform(2.0, 6.0)
+        b1 = rng.uniform(0.2, limit * 0.98)
+        b3 = rng.uniform(0.2, limit * 0.98)
+        b2 = limit + rng.uniform(0.01, 4.0)
+        fkey = rng.choice(['pi', 'sp', 'sm'])
+        sizes = {k: rng.randint(1, 5) for k in ('pi', 'sp', 'sm')}
+        sizes[fkey] = rng.randint(2, 6)
+        fidx = rng.randint(1, sizes[fkey] - 1)          # never the first: something is already written when it raises
+        fwhich = rng.choice(['wavelength', 'ratio'])
+        rows = {k: [(e['wl'] + rng.uniform(-0.05, 0.05), rng.uniform(-0.03, 0.03), rng.uniform(0.1, 3.0), rng.uniform(0, 0.2))
+                    for _ in range(sizes[k])] for k in sizes}
+
+        def lin(c0, c1, guarded):
+            def f(b):
+                if guarded and b > limit:
+                    raise _ComponentFault('component tabulated up to %r T only, %r T requested' % (limit, b))
+                return c0 + c1 * b
+            return f
+
+        def fns(k):
+            return [(lin(a0, a1, k == fkey and j == fidx and fwhich == 'wavelength'),
+                     lin(r0, r1, k == fkey and j == fidx and fwhich == 'ratio')) for j, (a0, a1, r0, r1) in enumerate(rows[k])]
+
+        mk = lambda: ZeemanStructure(fns('pi'), fns('sp'), fns('sm'))
+        hist = rng.choice([[b1, b2, b1], [b1, b2, b1, b2, b1], [b1, b3, b2, b1, b3], [b3, b1, b2, b2 + 1.0, b1, b3, b1]])
+        desc = dict(stream='fault-history', field_direction=u, history=hist, raises_above=limit, failing_list=fkey, failing_index=fidx,
+                    failing_function=fwhich, rows={k: [list(r) for r in rows[k]] for k in rows},
+                    env={k: e[k] for k in ('wl', 'aw', 'ts', 'vel', 'dir')})
+        kname = {'pi': 'pi', 'sp': 'sigma_plus', 'sm': 'sigma_minus'}[fkey]
+
+        # (1) the structure itself, through its public accessor
+        zs, first = mk(), {}
+        for step, b in enumerate(hist):
+            d = dict(desc, call='ZeemanStructure.__call__', polarisation=kname, step=step, b=b)
+            try:
+                arr = np.array(zs(b, kname), dtype=float)
+            except _ComponentFault:
+                run.s_check(b > limit, 'C02:ZeemanStructure:spurious-exception', 'raised at b=%r <= %r' % (b, limit), d, 'fault-zs-raise', (fkey,))
+                continue
+            run.s_check(b <= limit, 'C02:ZeemanStructure:component-exception-swallowed',
+                        'the component function raised at b=%r but the call returned %r' % (b, arr.tolist()), d, 'fault-zs-raise', (fkey,))
+            if b > limit:
+                continue
+            fresh = np.array(mk()(b, kname), dtype=float)
+            same = b not in first or (arr.shape == first[b].shape and bool((arr == first[b]).all()))
+            first.setdefault(b, arr)
+            run.s_check(same and arr.shape == fresh.shape and bool((arr == fresh).all()),
+                        'C02:ZeemanStructure:table-changed-after-raising-component-function',
+                        'step %d at b=%r returns %r; the first call at this b returned %r, a fresh structure returns %r '
+                        '(an earlier call at b > %r raised in component %d of %s)' % (step, b, arr.tolist(), first[b].tolist(), fresh.tolist(), limit, fidx, kname),
+                        d, 'fault-zs', (fkey, fwhich, len(hist), step))
+
+        # (2) the line shape on one structure
+        pol = rng.choice(['no', 'pi'] if fkey == 'pi' else ['no', 'sigma'])
+        sg = model_sigma('zm', e, None)
+        centre = o_doppler(e['wl'], e['dir'], e['vel'])
+        half = (0.06 + 0.031 * (b2 + 1.0)) * 1.01 + 13.0 * sg
+        mn, mx, bins = centre - half, centre + half, rng.randint(50, 600)
+        if mn <= 1.0:
+            continue
+        R = rng.uniform(0.1, 4)
+        W.set_env(e)
+        el = W.element(e['aw'])
+        line, sp = Line(el, 0, (3, 2)), Species(el, 0, W.ion)
+        model = L.ZeemanMultiplet(line, e['wl'], sp, W.plasma, W.ad, mk(), pol)
+        share = 1.0 if pol == 'no' else None
+        first = {}
+        for step, b in enumerate(hist):
+            W.B0 = tuple(t * b for t in u)
+            d = dict(desc, call='ZeemanMultiplet.add_line', polarisation=pol, radiance=R, window=[mn, mx, bins], step=step, b=b)
+            s = spectrum(mn, mx, bins)
+            try:
+                model.add_line(R, run.P, run.V(*e['dir']), s)
+            except _ComponentFault:
+                run.s_check(b > limit, 'C02:ZeemanMultiplet:spurious-exception', 'raised at |B|=%r <= %r' % (b, limit), d, 'fault-zm-raise', (fkey,))
+                continue
+            run.s_check(b <= limit, 'C02:ZeemanMultiplet:component-exception-swallowed',
+                        'the component function raised at |B|=%r but add_line returned normally' % b, d, 'fault-zm-raise', (fkey,))
+            if b > limit:
+                continue
+            got = np.array(s.samples, dtype=float)
+            fm = L.ZeemanMultiplet(line, e['wl'], sp, W.plasma, W.ad, mk(), pol)
+            fs_ = spectrum(mn, mx, bins)
+            fm.add_line(R, run.P, run.V(*e['dir']), fs_)
+            fresh = np.array(fs_.samples, dtype=float)
+            same = b not in first or bool((got == first[b]).all())
+            first.setdefault(b, got)
+            integ, integ0 = float(got.sum() * s.delta_wavelength), float(fresh.sum() * s.delta_wavelength)
+            run.s_check(same and bool((got == fresh).all()), 'C02:ZeemanMultiplet:spectrum-changed-after-raising-component-function',
+                        'step %d, |B|=%r: spectrum differs from the first call at this field / from a fresh model by up to %.3e per bin '
+                        '(integral %r vs %r; an earlier add_line at |B| > %r raised in component %d of the %s list)'
+                        % (step, b, float(np.abs(got - fresh).max()), integ, integ0, limit, fidx, kname), d, 'fault-zm', (fkey, fwhich, pol, len(hist), step))
+            if share is not None:
+                run.s_check(abs(integ - R) <= 1e-9 * R, 'C02:ZeemanMultiplet:not-normalised-after-raising-component-function',
+                            'step %d, |B|=%r: spectral integral %r for radiance %r (window spans the whole line)' % (step, b, integ, R),
+                            d, 'fault-zm-integral', (fkey, pol, step))
+        W.calls = []
+
+
 # -- setter histories: construct -> set* -> use == fresh(final) --------------------------------------------------------------
 GQ_TABLE_ORDERS = 40
 
@@ -1938,6 +2055,7 @@ def run(ctx):
     stream_models(run_, ctx.n(900, 15000))
     stream_ratios(run_, ctx.n(40, 600))
     stream_zeeman_structure(run_, ctx.n(60, 1000))
+    stream_fault_histories(run_, ctx.n(40, 600))
     stream_aliasing(run_, ctx.n(90, 1500))
     stream_mse(run_, ctx.n(200, 4000))
 
